@@ -258,10 +258,10 @@ Proof.
 Qed.
 
 (** from the table of fields on: -s on a record without a delimiter, --json's bracket, -m, the rest *)
-Lemma s10_spec (o : opt) (line : bytes) (fields : list mtch) buf lh sb d :
-  (forall text, exists t, maybe_replace o text = Some t) -> o_btype o <> BChars ->
+Lemma s11_spec (o : opt) (line : bytes) (fields : list mtch) buf lh sb d :
+  (forall text, exists t, maybe_replace o text = Some t) ->
   Forall item_nz (items (o_bounds o)) -> Z.of_nat (length fields) <= i32_max ->
-  let g := gen_cut_str_s10 line o [] (map mz fields) buf [o_eol o] lh sb d in
+  let g := gen_cut_str_s11 line o [] (map mz fields) buf [o_eol o] lh sb d in
   if (o_only_delimited o && Nat.eqb (length fields) 1)%bool then g = Ret (Some tt, [])
   else match tail_model o line fields with
        | ROk r => g = Ret (Some tt, r)
@@ -270,10 +270,8 @@ Lemma s10_spec (o : opt) (line : bytes) (fields : list mtch) buf lh sb d :
        | RHang => True
        end.
 Proof.
-  intros Hre Hb Hnz Hn g. subst g.
-  cbv beta delta [gen_cut_str_s10 gen_cut_str_s11 gen_cut_str_s12] iota zeta.
-  assert (Eb : btype_eqb (o_btype o) BChars = false) by (destruct (o_btype o); try reflexivity; exfalso; apply Hb; reflexivity).
-  rewrite Eb. cbn [andb]. rewrite map_length.
+  intros Hre Hnz Hn g. subst g.
+  cbv beta delta [gen_cut_str_s11 gen_cut_str_s12] iota zeta. rewrite map_length.
   assert (Main : match tail_model o line fields with
                  | ROk r => gen_cut_str_s13 line o [] (map mz fields) buf [o_eol o] lh sb d (Z.of_nat (length fields)) = Ret (Some tt, r)
                  | RErr => exists p, gen_cut_str_s13 line o [] (map mz fields) buf [o_eol o] lh sb d (Z.of_nat (length fields)) = Ret (None, p)
@@ -310,6 +308,44 @@ Proof.
     - apply Hs17. exact Hnz. }
   destruct (o_only_delimited o); cbn [andb]; [|exact Main].
   destruct (Z.eqb_spec (Z.of_nat (length fields)) 1) as [E|E]; destruct (Nat.eqb_spec (length fields) 1) as [E'|E']; try lia; [reflexivity | exact Main].
+Qed.
+
+Lemma s10_spec (o : opt) (line : bytes) (fields : list mtch) buf lh sb d :
+  (forall text, exists t, maybe_replace o text = Some t) -> o_btype o <> BChars ->
+  Forall item_nz (items (o_bounds o)) -> Z.of_nat (length fields) <= i32_max ->
+  let g := gen_cut_str_s10 line o [] (map mz fields) buf [o_eol o] lh sb d in
+  if (o_only_delimited o && Nat.eqb (length fields) 1)%bool then g = Ret (Some tt, [])
+  else match tail_model o line fields with
+       | ROk r => g = Ret (Some tt, r)
+       | RErr => exists p, g = Ret (None, p)
+       | RPanic => g = Panic
+       | RHang => True
+       end.
+Proof.
+  intros Hre Hb Hnz Hn g. subst g.
+  assert (Eb : btype_eqb (o_btype o) BChars = false) by (destruct (o_btype o); try reflexivity; exfalso; apply Hb; reflexivity).
+  assert (E : gen_cut_str_s10 line o [] (map mz fields) buf [o_eol o] lh sb d = gen_cut_str_s11 line o [] (map mz fields) buf [o_eol o] lh sb d)
+    by (cbv beta delta [gen_cut_str_s10] iota zeta; rewrite Eb; reflexivity).
+  rewrite E. exact (s11_spec o line fields buf lh sb d Hre Hnz Hn).
+Qed.
+
+(** -c: the two empty pieces at the ends of the table go *)
+Lemma removelast_map {A B} (f : A -> B) : forall l, removelast (map f l) = map f (removelast l).
+Proof. induction l as [|a [|b l] IH]; [reflexivity | reflexivity |]. cbn [map removelast] in *. rewrite IH. reflexivity. Qed.
+
+Lemma tl_removelast {A} (l : list A) : tl (removelast l) = removelast (tl l).
+Proof. destruct l as [|a [|b l]]; reflexivity. Qed.
+
+Lemma s10_chars (o : opt) (line : bytes) (fields0 : list mtch) buf lh sb d :
+  o_btype o = BChars ->
+  gen_cut_str_s10 line o [] (map mz fields0) buf [o_eol o] lh sb d
+  = gen_cut_str_s11 line o [] (map mz (drop_outer fields0)) buf [o_eol o] lh sb d.
+Proof.
+  intros Hb. cbv beta delta [gen_cut_str_s10] iota zeta. rewrite Hb. cbn [btype_eqb andb]. rewrite map_length. unfold drop_outer.
+  destruct (Z.ltb_spec 2 (Z.of_nat (length fields0))) as [H|H]; destruct (Nat.ltb_spec 2 (length fields0)) as [H'|H']; try lia; [|reflexivity].
+  rewrite removelast_map. destruct (removelast fields0) as [|x xs] eqn:E.
+  - destruct fields0 as [|a [|b l]]; cbn in H'; try lia. cbn [removelast] in E. destruct l; discriminate.
+  - cbn [map vec_drain1 bind]. rewrite <- tl_removelast, E. reflexivity.
 Qed.
 
 (** the record after -t, after -p, and its table of fields *)
@@ -621,6 +657,70 @@ Proof.
       * destruct (out_loop o l1 fields (items (o_bounds o))); reflexivity.
 Qed.
 
+(** -c: the characters of a record that is valid UTF-8 (no -t here) *)
+Theorem tie_cut_str_chars : forall (o : opt) (line0 : bytes) (ms : list mtch) (fields0 : list (Z * Z)) (buf0 : list byte),
+  o_regex o = Some RxChars -> o_btype o = BChars -> o_trim o = None ->
+  Forall item_nz (items (o_bounds o)) ->
+  char_matches line0 = Some ms ->
+  Z.of_nat (length (drop_outer (fields_of_matches ms line0))) <= i32_max ->
+  of_rres_cut (cut_str o line0) (gen_cut_str line0 o fields0 buf0 [o_eol o]).
+Proof.
+  intros o line0 ms fields0 buf0 Hre Hb Ht Hnz Hms Hf.
+  assert (Hmr : forall text, exists t, maybe_replace o text = Some t)
+    by (intros text; unfold maybe_replace; rewrite Hb; eexists; reflexivity).
+  (* the two checks of --regex (-c is served by a regex) against -p / -j without -r *)
+  assert (Hpre : forall (g : option rres) (k : rs (option unit * bytes)),
+    of_rres_cut g k ->
+    of_rres_cut (if (true && match o_replace o with None => true | Some _ => false end && (o_compress o || o_join o))%bool then Some RErr else g)
+      (if (o_compress o && match o_replace o with None => true | _ => false end)%bool
+       then Ret (None, [])
+       else if (o_join o && match o_replace o with None => true | _ => false end)%bool
+            then Ret (None, [])
+            else k)).
+  { intros g k H. destruct (o_replace o) as [nd|].
+    - cbn [andb]. rewrite !andb_false_r. exact H.
+    - cbn [andb]. rewrite !andb_true_r. destruct (o_compress o); cbn [orb]; [eexists; reflexivity|].
+      destruct (o_join o); [eexists; reflexivity | exact H]. }
+  unfold cut_str. rewrite Hre, Ht, Hb.
+  cbv beta delta [gen_cut_str] iota zeta. rewrite Hre. cbv iota beta.
+  apply Hpre.
+  cbv beta delta [gen_cut_str_s1 gen_cut_str_s2] iota zeta. rewrite Ht.
+  cbv beta delta [gen_cut_str_s3] iota zeta.
+  destruct line0 as [|c l0]; [destruct (o_only_delimited o); reflexivity|]. cbv iota beta.
+  cbn [rx_greedy rx_normal btype_eqb orb]. rewrite andb_false_r. rewrite Hms.
+  replace (if o_greedy o then Some ms else Some ms) with (Some ms) by (destruct (o_greedy o); reflexivity).
+  set (fields := drop_outer (fields_of_matches ms (c :: l0))) in *.
+  cbv beta delta [gen_cut_str_s4 gen_cut_str_s5 gen_cut_str_s6 gen_cut_str_s7 gen_cut_str_s8] iota zeta.
+  rewrite Hre, Hb. cbn [btype_eqb orb andb]. rewrite andb_false_r.
+  cbv beta delta [gen_cut_str_s9] iota zeta. rewrite Hre. cbn [andb opt_unwrap bind].
+  assert (Hfill : forall rb, rx_matches rb (c :: l0) = Some ms ->
+            bind (gen_fill_regex fields0 (c :: l0) rb) (fun '(_, m) => gen_cut_str_s10 (c :: l0) o [] m buf0 [o_eol o] [] true (o_delim o))
+            = gen_cut_str_s11 (c :: l0) o [] (map mz fields) buf0 [o_eol o] [] true (o_delim o)).
+  { intros rb Hrb. rewrite (tie_fill_regex fields0 (c :: l0) rb ms Hrb). cbn [bind].
+    change (map mzz (fields_of_matches ms (c :: l0))) with (map mz (fields_of_matches ms (c :: l0))).
+    rewrite (s10_chars o (c :: l0) (fields_of_matches ms (c :: l0)) buf0 [] true (o_delim o) Hb). reflexivity. }
+  match goal with |- of_rres_cut _ ?g =>
+    assert (Hg : g = gen_cut_str_s11 (c :: l0) o [] (map mz fields) buf0 [o_eol o] [] true (o_delim o)) end.
+  { destruct (o_greedy o); apply Hfill; unfold rx_matches, rb_greedy, rb_normal; cbn [fst snd rx_greedy rx_normal]; exact Hms. }
+  rewrite Hg; clear Hg.
+  pose proof (s11_spec o (c :: l0) fields buf0 [] true (o_delim o) Hmr Hnz Hf) as H11. cbv zeta in H11.
+  destruct (o_only_delimited o && Nat.eqb (length fields) 1)%bool; [exact H11|].
+  assert (Et : forall X : option rres, X = Some (tail_model o (c :: l0) fields) -> of_rres_cut X (gen_cut_str_s11 (c :: l0) o [] (map mz fields) buf0 [o_eol o] [] true (o_delim o)))
+    by (intros X ->; destruct (tail_model o (c :: l0) fields); cbn [of_rres_cut]; try exact H11; exact I).
+  apply Et. unfold tail_model, tail2, unpack_wanted. rewrite Hb. cbn [btype_eqb andb].
+  destruct (o_complement o).
+  - destruct (complement_list (items (o_bounds o)) (length fields)) as [u|]; [|reflexivity].
+    destruct ((o_json o || match o_replace o with Some _ => true | None => false end) && needs_unpack (items u))%bool.
+    + destruct (unpack_list (items u) (length fields)) as [v|]; [|reflexivity].
+      destruct (out_loop o (c :: l0) fields (items v)); reflexivity.
+    + destruct (out_loop o (c :: l0) fields (items u)); reflexivity.
+  - destruct ((o_json o || match o_replace o with Some _ => true | None => false end) && needs_unpack (items (o_bounds o)))%bool.
+    + destruct (unpack_list (items (o_bounds o)) (length fields)) as [v|]; [|reflexivity].
+      destruct (out_loop o (c :: l0) fields (items v)); reflexivity.
+    + destruct (out_loop o (c :: l0) fields (items (o_bounds o))); reflexivity.
+Qed.
+
 Definition tie_cut_str := tie_cut_str_literal.
 Print Assumptions tie_cut_str_literal.
 Print Assumptions tie_cut_str_regex.
+Print Assumptions tie_cut_str_chars.
